@@ -243,7 +243,7 @@ def run(ctx, out):
     lap("model checking and self-tests done")
     # ---- S2C: reachable files -> real track directories -> real loader
     dump_file = dump + ".dump" if os.path.exists(dump + ".dump") else dump
-    cases, per_rule, nstates = cases_from_dump(ctx, dump_file, rnd, {"none": 100000} if ctx.quick else {"none": 25000}, 110 if ctx.quick else 2000)
+    cases, per_rule, nstates = cases_from_dump(ctx, dump_file, rnd, {"none": 100000} if ctx.quick else {"none": 25000}, 90 if ctx.quick else 2000)
     if nstates != res.distinct:
         raise tlc.MachineryError("dump has %d states, TLC reported %d" % (nstates, res.distinct))
     missing = [r for r in L1_RULES if per_rule.get(r, 0) == 0]
@@ -254,7 +254,7 @@ def run(ctx, out):
     sims = cases_from_sim(res_sim, simdir, out, rnd)
     out.note("leg S2C: %d TLC -simulate behaviours (wide alphabets, valid for 5 builder steps, then up to 9 more; mean size of the final file %.1f)" % (len(sims), sum(tg.size(c["f"]) for c in sims) / max(1.0, float(len(sims)))))
     lap("simulation done")
-    rnds = random_cases(ctx.seed + 1010, 500 if ctx.quick else 8000)
+    rnds = random_cases(ctx.seed + 1010, 400 if ctx.quick else 8000)
     allcases = cases + sims + rnds
 
     root = os.path.join(tlc.scratch("c10tracks"), "t")
